@@ -299,6 +299,13 @@ pub fn ym_edges() -> Vec<i128> {
             }
         }
     }
+    // the limit divided by small whole numbers, with neighbours
+    for n in [2i128, 3, 4, 5, 6, 7, 8, 9, 10, 12, 16, 24, 60, 100, 1000] {
+        for d in [-12i128, -1, 0, 1, 12] {
+            v.push(YM_MAX / n + d);
+            v.push(-(YM_MAX / n + d));
+        }
+    }
     // every small year count with a month (digit-count boundaries of the year field)
     for y in 0..=130i128 {
         v.push(y * 12 + (y % 12));
@@ -361,6 +368,15 @@ pub fn dt_edges() -> Vec<i128> {
                 break;
             }
             for d in [-unit, -1, 0, 1, unit / 2, unit - 1, unit] {
+                xs.push(base + d);
+            }
+        }
+    }
+    // the limit (and the timestamp span) divided by small whole numbers, with neighbours: the
+    // operands whose product / sum with a small integer lands at the limit
+    for n in [2i128, 3, 4, 5, 6, 7, 8, 9, 10, 12, 16, 24, 60, 100, 1000, 86_400] {
+        for base in [DT_MAX / n, span / n] {
+            for d in [-US_PER_SEC, -2, -1, 0, 1, 2, US_PER_SEC] {
                 xs.push(base + d);
             }
         }
